@@ -14,14 +14,15 @@ import (
 )
 
 type Env struct {
-	fe    *FEnc
-	st    *State
-	old   *State
-	vars  map[string]*Val
-	blk   *ssa.BasicBlock // for source-variable lookup (nil: none)
-	idx   int
-	pkg   *types.Package
-	bound map[string]*Val
+	lenient bool // a boolean sub-expression over names that do not exist (yet) at this point is an arbitrary truth value
+	fe      *FEnc
+	st      *State
+	old     *State
+	vars    map[string]*Val
+	blk     *ssa.BasicBlock // for source-variable lookup (nil: none)
+	idx     int
+	pkg     *types.Package
+	bound   map[string]*Val
 }
 
 func (e *FEnc) fnEnv(st, old *State, extra map[string]*Val) *Env {
@@ -76,6 +77,11 @@ func (e *FEnc) bindResults(env *Env, sig *types.Signature, rs []*Val) {
 func (e *FEnc) evalBool(env *Env, x *Ex) (string, error) {
 	v, err := e.eval(env, x)
 	if err != nil {
+		if env.lenient && strings.Contains(err.Error(), "unknown name") && !e.noFacts {
+			// the clause mentions a local that does not exist at this program point: its truth value is
+			// arbitrary here, so the obligation can only hold through the other operands
+			return e.fresh("unk", "Bool"), nil
+		}
 		return "", err
 	}
 	if v.Sort != "Bool" {
